@@ -94,7 +94,7 @@ struct OptHarness : HarnessBase {
 		if(res) res->outcomes.insert(std::string(ref[0].on ? "on" : "off") + "/" + (ref[1].on ? "on" : "off"));
 	}
 	void final_check() { for(int a = 0; a < 2; a++) if(alive[a]) { s(a).~O(); alive[a] = false; } raise_pending(); world_check_empty(name); }
-	void canon(std::string &out) { world_canon(out); for(int a = 0; a < 2; a++) { out.push_back(ref[a].on ? 'E' : 'n'); out += std::to_string(ref[a].v); out.push_back(','); } }
+	void canon(std::string &out) { world_canon(out); GraphCanon g; for(int a = 0; a < 2; a++) if(alive[a]) g.root(store[a], sizeof(O)); g.emit(out); for(int a = 0; a < 2; a++) { out.push_back(ref[a].on ? 'E' : 'n'); out += std::to_string(ref[a].v); out.push_back(','); } }
 };
 
 // ------------------------------------------------------------------------------------------
@@ -171,7 +171,7 @@ struct ExpHarness : HarnessBase {
 		if(res) res->outcomes.insert("err=" + std::to_string(ref[0].err) + "/" + std::to_string(ref[1].err));
 	}
 	void final_check() { for(int a = 0; a < 2; a++) if(alive[a]) { s(a).~X(); alive[a] = false; } raise_pending(); world_check_empty(name); }
-	void canon(std::string &out) { world_canon(out); for(int a = 0; a < 2; a++) out += std::to_string(ref[a].err) + ":" + std::to_string(ref[a].v) + ","; }
+	void canon(std::string &out) { world_canon(out); GraphCanon g; for(int a = 0; a < 2; a++) if(alive[a]) g.root(store[a], sizeof(X)); g.emit(out); for(int a = 0; a < 2; a++) out += std::to_string(ref[a].err) + ":" + std::to_string(ref[a].v) + ","; }
 };
 
 // ------------------------------------------------------------------------------------------
@@ -242,7 +242,7 @@ struct VarHarness : HarnessBase {
 		if(res) res->outcomes.insert("tags=" + std::to_string(ref[0].tag) + "/" + std::to_string(ref[1].tag));
 	}
 	void final_check() { for(int a = 0; a < 2; a++) if(alive[a]) { s(a).~V(); alive[a] = false; } raise_pending(); world_check_empty("variant"); }
-	void canon(std::string &out) { world_canon(out); for(int a = 0; a < 2; a++) out += std::to_string(ref[a].tag) + ":" + std::to_string(ref[a].v) + ","; }
+	void canon(std::string &out) { world_canon(out); GraphCanon g; for(int a = 0; a < 2; a++) if(alive[a]) g.root(store[a], sizeof(V)); g.emit(out); for(int a = 0; a < 2; a++) out += std::to_string(ref[a].tag) + ":" + std::to_string(ref[a].v) + ","; }
 };
 
 // ------------------------------------------------------------------------------------------
@@ -285,7 +285,7 @@ struct BoxHarness : HarnessBase {
 	}
 	// the box is manual: the owner destructs before dropping it
 	void final_check() { for(int a = 0; a < 2; a++) if(ref[a].on) { s(a).destruct(); ref[a].on = false; } raise_pending(); world_check_empty("manual_box"); }
-	void canon(std::string &out) { world_canon(out); for(int a = 0; a < 2; a++) out += std::string(ref[a].on ? "E" : "n") + std::to_string(ref[a].v) + ","; }
+	void canon(std::string &out) { world_canon(out); GraphCanon g; for(int a = 0; a < 2; a++) g.root(store[a], sizeof(B)); g.emit(out); for(int a = 0; a < 2; a++) out += std::string(ref[a].on ? "E" : "n") + std::to_string(ref[a].v) + ","; }
 };
 
 // ------------------------------------------------------------------------------------------
